@@ -201,6 +201,8 @@ def run_vm(code, es, K):
 
 def check_case(case, stats=None, K=oracle.K_QUICK):
     opts = dict(case.get("opts") or {})
+    if "A" in case:  # literal sources (regression witnesses)
+        return check_literal(case, K)
     A, B = render(case)
     ra = oracle.compile_case(A, opts)
     rb = oracle.compile_case({"": B}, opts)
@@ -267,6 +269,23 @@ def check_case(case, stats=None, K=oracle.K_QUICK):
         if nmod >= 2 and collision and gw:
             stats.nontrivial.add(sha([A, opts])[:16])
             stats.sample({"modules": A, "options": opts}, limit=2)
+
+
+def check_literal(case, K):
+    """modules A and merged file B given literally: traces must agree and A must agree with the interpreter"""
+    opts = dict(case.get("opts") or {})
+    A, B = case["A"], case["B"]
+    ra, rb = oracle.compile_case(A, opts), oracle.compile_case({"": B}, opts)
+    if "error" in ra or "error" in rb:
+        raise Violation("C13:split-changes-acceptance", {"a": oracle.public(ra), "b": oracle.public(rb)})
+    for es in case.get("env_seeds", [1, 2]):
+        ma, mb = run_vm(ra["code"], es, K), run_vm(rb["code"], es, K)
+        kind, d = compare.compare_vm_vm(ma, mb)
+        if kind == "mismatch":
+            raise Violation("C13:modules-behave-differently-from-merged-file:" + d["what"], {"compare": d, "code_modules": ra["code"], "code_merged": rb["code"]})
+        r = oracle.diff_run(A, opts, es, compare.DEFAULT_POOL, K, res=ra)
+        if r["kind"] in ("mismatch", "vmerror"):
+            raise Violation("C13:modules-differ-from-source-semantics", {"compare": r.get("detail"), "code_modules": ra["code"]})
 
 
 def run_shard(ctx):
